@@ -79,6 +79,12 @@ type shaper struct {
 	impure   []string
 	callers  []*ssa.Function
 	typeTags bool
+	nilUses  []nilUse // interface values converted to key text: each needs a dominating nil test
+}
+
+type nilUse struct {
+	at ssa.Instruction
+	x  ssa.Value
 }
 
 func konst(s string) *Shape { return &Shape{K: "const", S: s} }
@@ -339,9 +345,16 @@ func (sh *shaper) call(c *ssa.Call) *Shape {
 	}
 	cal := c.Call.StaticCallee()
 	if cal != nil && cal.Pkg != nil && cal.Pkg.Pkg.Path() == modPath+"/utils/cast" && (cal.Name() == "ToString" || cal.Name() == "ToStringE") {
+		sh.noteNilUse(c, c.Call.Args[0])
 		return &Shape{K: "raw", Of: c}
 	}
 	if cal != nil && sh.a.fnInModule(cal) && cal.Blocks != nil && cal.Signature.Results().Len() >= 1 && isStringType(cal.Signature.Results().At(0).Type()) {
+		// the argument expressions are part of the key's provenance (nil tests, purity)
+		for _, arg := range c.Call.Args {
+			if isStringType(arg.Type()) {
+				sh.of(arg)
+			}
+		}
 		return sh.inline(cal)
 	}
 	if isStringType(c.Type()) {
@@ -504,7 +517,89 @@ func (sh *shaper) sprintf(c *ssa.Call) *Shape {
 	if lit != "" {
 		parts = append(parts, konst(lit))
 	}
+	// the variadic arguments are interface values rendered into the key
+	if len(c.Call.Args) == 2 {
+		if sl, ok := c.Call.Args[1].(*ssa.Slice); ok {
+			if al, ok := sl.X.(*ssa.Alloc); ok {
+				for _, r := range *al.Referrers() {
+					if ia, ok := r.(*ssa.IndexAddr); ok {
+						for _, rr := range *ia.Referrers() {
+							if st, ok := rr.(*ssa.Store); ok && st.Addr == ssa.Value(ia) {
+								sh.noteNilUse(c, st.Val)
+							}
+						}
+					}
+				}
+			}
+		}
+	}
 	return concat(parts...)
+}
+
+// noteNilUse records that interface value x is rendered as key text at instruction at.
+func (sh *shaper) noteNilUse(at ssa.Instruction, x ssa.Value) {
+	for {
+		if mi, ok := x.(*ssa.MakeInterface); ok {
+			// a concrete non-interface value boxed for the call cannot be nil
+			if _, isIface := mi.X.Type().Underlying().(*types.Interface); !isIface {
+				return
+			}
+			x = mi.X
+			continue
+		}
+		break
+	}
+	if _, isIface := x.Type().Underlying().(*types.Interface); !isIface {
+		return
+	}
+	sh.nilUses = append(sh.nilUses, nilUse{at, x})
+}
+
+// nilGuarded: the instruction is reached only when x (same access path) was tested non-nil, or x is
+// the subject of a type switch / assertion whose nil case was taken elsewhere.
+func nilGuarded(at ssa.Instruction, x ssa.Value) bool {
+	xs := TermOf(x, nil).String()
+	for _, g := range guardsOf(at.Block()) {
+		v := g.Cond
+		sense := g.Sense
+		for {
+			if u, ok := v.(*ssa.UnOp); ok && u.Op == token.NOT {
+				v = u.X
+				sense = !sense
+				continue
+			}
+			break
+		}
+		bo, ok := v.(*ssa.BinOp)
+		if !ok || !(bo.Op == token.EQL || bo.Op == token.NEQ) {
+			continue
+		}
+		k, isK := bo.Y.(*ssa.Const)
+		if !isK || k.Value != nil {
+			continue
+		}
+		if TermOf(bo.X, nil).String() != xs {
+			continue
+		}
+		if (bo.Op == token.NEQ) == sense {
+			return true
+		}
+	}
+	return false
+}
+
+func (sh *shaper) nilProblems(probs *[]keyProblem) {
+	seen := map[ssa.Instruction]bool{}
+	for _, u := range sh.nilUses {
+		if seen[u.at] {
+			continue
+		}
+		if !nilGuarded(u.at, u.x) {
+			seen[u.at] = true
+			*probs = append(*probs, keyProblem{fmt.Sprintf("two alternatives of a key component cannot be told apart: the value %s is rendered as text at %s without a preceding nil test, so an explicit NULL becomes the text of the empty/\"<nil>\" string", TermOf(u.x, nil), sh.a.pos(u.at.Pos())),
+				"an explicit NULL value and the string it is rendered as (\"\" for cast.ToString, \"<nil>\" for %v) encode to the same key"})
+		}
+	}
 }
 
 // sliceElems: the alternatives of the strings stored into a []string built in the function.
@@ -1025,6 +1120,7 @@ func (a *A) keyencFunc(f *ssa.Function, resIdx int, o keyencOpts) {
 	for _, imp := range sh.impure {
 		probs = append(probs, keyProblem{"the key depends on " + imp + " (equal values could be split)", ""})
 	}
+	sh.nilProblems(&probs)
 	if len(probs) == 0 {
 		o := a.Ok(construct, f.Pos(), "uniquely decodable: %s", strings.Join(shapes, "  or  "))
 		o.Extra = map[string]any{"format": shapes}
@@ -1080,6 +1176,7 @@ func (a *A) keyencAggregator() {
 	s := sh.frame(sh.of(keyV))
 	var probs []keyProblem
 	sh.check(s, false, "", &probs)
+	sh.nilProblems(&probs)
 	construct := fname(add) + "#key-format"
 	if len(probs) == 0 {
 		a.Ok(construct, keyV.Pos(), "uniquely decodable: %s", s).Extra = map[string]any{"format": s.String()}
